@@ -174,7 +174,26 @@ impl Leg for Python {
     }
 }
 
+/// first calls of a fresh process made by several threads at once
+pub struct Cold;
+impl Leg for Cold {
+    type Case = super::coldstart::Case;
+    const NAME: &'static str = "cold-start-threads";
+    fn strategy(_tier: Tier) -> BoxedStrategy<Self::Case> {
+        use super::coldstart::Op;
+        let op = gen::wm_strategy(31, 91).prop_flat_map(|(w, m)| super::coldstart::small_seq(w).prop_map(move |seq| Op::Minimiser { seq, w, m })).boxed();
+        super::coldstart::case_strategy(op)
+    }
+    fn check(c: &Self::Case) -> Verdict {
+        super::coldstart::check(c, "cold-start-wrong-result")
+    }
+}
+
 pub fn run(ctx: &mut Ctx) {
+    let nc = ctx.share(ctx.tier.pick(400, 8_000));
+    ctx.run_leg::<Cold>(nc, false, 40);
+    super::coldstart::infra_inconclusive(ctx);
+
     let n = ctx.share(ctx.tier.pick(30_000, 400_000));
     ctx.run_leg::<Python>(n, false, 1000);
     let maxlen = ctx.tier.pick(8, 11);
@@ -195,6 +214,7 @@ pub fn replay(leg: &str, case: &serde_json::Value) -> Option<Result<Verdict, Str
     match leg {
         "exhaustive" | "random" => Some(crate::engine::replay_leg::<Random>(case)),
         "python" => Some(crate::engine::replay_leg::<Python>(case)),
+        "cold-start-threads" => Some(crate::engine::replay_leg::<Cold>(case)),
         _ => None,
     }
 }
